@@ -25,6 +25,13 @@ package streams
 // Locations back to the edge host / to other hosts / https / with queries, flags per rule, entry
 // rule without cache, start node and prefix per request).
 //
+// Validators: about half of the redirect nodes and some of the final ones carry an ETag (per-node
+// PRNG choice); the scripted origin answers a request whose If-None-Match names the node's ETag with
+// 304 (ETag, Cache-Control — its own or the node's).  Directed histories (srcRevalHistory) drive a
+// stored hop through cold → warm → tick past max-age → request (the hop is revalidated: 304,
+// SetRevalidatedAndClose, re-entry of cachingFunc with skipRevalidate, the Found site follows the
+// STORED RedirectedURL) → warm again, in root mode and in shared mode.
+//
 // rrrouter counts the redirects it follows per client request, at every re-entry site of
 // cachingFunc, and answers 508 Loop detected after maxRedirects (10) of them (the repair of
 // findings C18-a / C18-c); `runaway` is not expected on any case any more.  The guard below stays
@@ -59,6 +66,7 @@ func init() {
 	register("sysrc", srcStream)
 	register("kf.C18-c", srcKfC)
 	register("kf.C18-d", srcKfD)
+	register("kf.C09-b.sysrc", srcKfB)
 }
 
 const (
@@ -86,6 +94,8 @@ type srcNode struct {
 	Body     string
 	Location string
 	CC       string // Cache-Control of the answer ("" = none)
+	ETag     string // validator of the answer ("" = none); the origin answers 304 to If-None-Match naming it
+	CC304    string // Cache-Control of that 304 ("" = the answer's own)
 	Intended int    // the node the Location names; -1 final answer; -2 the property text does not say
 	RuleIdx  int
 }
@@ -181,7 +191,55 @@ func srcBuild(g *hx.Gen, choice []int, opt []srcNodeOpt, entries []hx.RuleSpec) 
 		c.Nodes = append(c.Nodes, nd)
 	}
 	c.Rules = append(c.Rules, entries...)
+	// validators: ~half of the redirect nodes, some of the final ones
+	for i := range c.Nodes {
+		nd := &c.Nodes[i]
+		p := 30
+		if nd.Redirect {
+			p = 50
+		}
+		if g.Chance(p) {
+			nd.ETag = "\"v" + hx.I(i) + "\""
+			nd.CC304 = g.Pick(srcCC304s)
+		}
+	}
 	return c
+}
+
+// Cache-Control of a 304 ("" = the one of the full answer); none of these forbids storing (a 304
+// that does is finding C09-b, handed to the client as it is: srcRevalHistory plants one now and then)
+var srcCC304s = []string{"", "", "", "max-age=60", "max-age=5", "max-age=600"}
+
+// srcRevalHistory turns a built case into a directed revalidation history: every answer lives for
+// 60 s, most nodes carry a validator; cold, warm, tick past max-age, the request that revalidates,
+// warm again.
+func srcRevalHistory(g *hx.Gen, c *srcCase, cold, warm srcOp, extra *srcOp) {
+	for i := range c.Nodes {
+		nd := &c.Nodes[i]
+		nd.CC = "max-age=60"
+		if nd.ETag == "" && g.Chance(60) {
+			nd.ETag = "\"w" + hx.I(i) + "\""
+			nd.CC304 = g.Pick(srcCC304s)
+		}
+	}
+	if g.Chance(12) {
+		// finding C09-b seen from here: the 304 of ONE node forbids storing — the handler hands that 304
+		// to the client (who sent no validator) instead of the final response of the chain
+		for i := range c.Nodes {
+			if c.Nodes[i].ETag != "" {
+				c.Nodes[i].CC304 = g.Pick([]string{"no-store", "private", "no-cache", "max-age=0", "private, max-age=60"})
+				break
+			}
+		}
+	}
+	c.Ops = []srcOp{cold, warm, {Kind: 'T', Dt: []int{61, 61, 100, 700}[g.Intn(4)]}, warm, warm}
+	if g.Chance(40) {
+		// once more after the (possibly different) lifetime the 304 gave
+		c.Ops = append(c.Ops, srcOp{Kind: 'T', Dt: []int{4, 6, 61, 601}[g.Intn(4)]}, warm)
+	}
+	if extra != nil {
+		c.Ops = append(c.Ops, *extra)
+	}
 }
 
 func srcRootRule(g *hx.Gen, cache string, restart bool) hx.RuleSpec {
@@ -215,6 +273,9 @@ func srcStream(g *hx.Gen, id int) hx.Case {
 			if g.Chance(40) {
 				c.Ops = append(c.Ops, srcOp{Kind: 'T', Dt: srcTicks[g.Intn(len(srcTicks))]}, srcReq("", 0))
 			}
+			if g.Chance(35) {
+				srcRevalHistory(g, &c, srcReq("", 0), srcReq("", 0), nil)
+			}
 			return c.run("sysrc", id)
 		}
 		// shared mode: stored through /p (restart_on_redirect mostly off), read through /f (on)
@@ -234,6 +295,15 @@ func srcStream(g *hx.Gen, id int) hx.Case {
 		c.Ops = append(c.Ops, srcReq("/f", 0))
 		if g.Chance(30) {
 			c.Ops = append(c.Ops, srcReq("/p", 0))
+		}
+		if g.Chance(35) {
+			// stored through /p, read through /f, revalidated through /f[, read through /p]
+			var extra *srcOp
+			if g.Bool() {
+				e := srcReq("/p", 0)
+				extra = &e
+			}
+			srcRevalHistory(g, &c, srcReq("/p", 0), srcReq("/f", 0), extra)
 		}
 		return c.run("sysrc", id)
 	}
@@ -334,6 +404,13 @@ func srcStream(g *hx.Gen, id int) hx.Case {
 		}
 		c.Ops = append(c.Ops, r)
 	}
+	if g.Chance(25) {
+		warm := first
+		if shared {
+			warm = srcReq(prefixes[1], first.Start)
+		}
+		srcRevalHistory(g, &c, first, warm, nil)
+	}
 	return c.run("sysrc", id)
 }
 
@@ -341,7 +418,7 @@ func (c srcCase) inputTokens() []string {
 	in := hx.RulesTokens(c.Rules)
 	in = append(in, hx.X(srcEdge), hx.I(len(c.Nodes)))
 	for _, n := range c.Nodes {
-		in = append(in, hx.X(n.Path), hx.B(n.Redirect), hx.I(n.Status), hx.X(n.Body), hx.X(n.Location), hx.X(n.CC), hx.I(n.Intended), hx.I(n.RuleIdx))
+		in = append(in, hx.X(n.Path), hx.B(n.Redirect), hx.I(n.Status), hx.X(n.Body), hx.X(n.Location), hx.X(n.CC), hx.X(n.ETag), hx.X(n.CC304), hx.I(n.Intended), hx.I(n.RuleIdx))
 	}
 	in = append(in, hx.I(len(c.Known)))
 	for _, h := range c.Known {
@@ -364,6 +441,8 @@ func (c srcCase) script() func(*http.Request) *sysx.OriginResp {
 		known[h] = true
 	}
 	resps := map[string]*sysx.OriginResp{}
+	etags := map[string]string{}
+	notMod := map[string]*sysx.OriginResp{}
 	for _, n := range c.Nodes {
 		r := &sysx.OriginResp{Status: n.Status, Body: []byte(n.Body), ReadErrAt: -1}
 		if n.Redirect {
@@ -373,6 +452,19 @@ func (c srcCase) script() func(*http.Request) *sysx.OriginResp {
 			r.Header = append(r.Header, [2]string{"Cache-Control", n.CC})
 		}
 		resps[n.Path] = r
+		if n.ETag != "" {
+			r.Header = append(r.Header, [2]string{"ETag", n.ETag})
+			// the 304 of a conditional origin: the validator and a Cache-Control, no body
+			nm := &sysx.OriginResp{Status: 304, Header: [][2]string{{"ETag", n.ETag}}, ReadErrAt: -1}
+			cc := n.CC
+			if n.CC304 != "" {
+				cc = n.CC304
+			}
+			if cc != "" {
+				nm.Header = append(nm.Header, [2]string{"Cache-Control", cc})
+			}
+			etags[n.Path], notMod[n.Path] = n.ETag, nm
+		}
 	}
 	unknown := &sysx.OriginResp{Status: 404, Body: []byte("unknown"), ReadErrAt: -1}
 	return func(req *http.Request) *sysx.OriginResp {
@@ -381,6 +473,9 @@ func (c srcCase) script() func(*http.Request) *sysx.OriginResp {
 			return nil
 		}
 		if r, ok := resps[req.URL.Path]; ok {
+			if et := etags[req.URL.Path]; et != "" && req.Header.Get("If-None-Match") == et {
+				return notMod[req.URL.Path]
+			}
 			return r
 		}
 		return unknown
@@ -598,6 +693,25 @@ func srcKfD(g *hx.Gen, id int) hx.Case {
 	return c.run("kf.C18-d", id)
 }
 
+// C09-b seen from C18: a stored hop with a validator goes stale; the origin confirms it with a 304
+// whose Cache-Control forbids storing.  cachingFunc takes the "uncacheable" branch and hands the
+// origin's 304 (no body) to the client, who sent no validator — instead of following the stored
+// redirect (case 0: the 304 is for the redirect hop itself) or replaying the stored final answer
+// (case 1: the hop has no validator and is fetched again, the 304 is for the final node).
+func srcKfB(g *hx.Gen, id int) hx.Case {
+	srcMu.Lock()
+	defer srcMu.Unlock()
+	root := []hx.RuleSpec{{Host: srcEdge, Path: "/*", Dest: "http://d0.test/$1", Cache: "c1", RestartOnRedirect: true}}
+	nodes := []srcNode{{Path: "/a", Redirect: true, Location: "/b", CC: "max-age=60", ETag: "\"v0\"", CC304: "no-store", Intended: 1},
+		{Path: "/b", Status: 200, Body: "target", CC: "max-age=60"}}
+	if id%2 == 1 {
+		nodes = []srcNode{{Path: "/a", Redirect: true, Status: 307, Location: "/b", CC: "max-age=60", Intended: 1},
+			{Path: "/b", Status: 200, Body: "target", CC: "max-age=60", ETag: "\"v1\"", CC304: "private, max-age=60"}}
+	}
+	c := srcFixed(nodes, root, []srcOp{{Kind: 'R', Target: "/a", Start: 0}, {Kind: 'T', Dt: 61}, {Kind: 'R', Target: "/a", Start: 0}})
+	return c.run("kf.C09-b.sysrc", id)
+}
+
 func srcContactTokens(cs []sysx.Contact) []string {
 	out := []string{hx.I(len(cs))}
 	for _, c := range cs {
@@ -607,7 +721,7 @@ func srcContactTokens(cs []sysx.Contact) []string {
 				via = append(via, hx.I(i))
 			}
 		}
-		out = append(out, hx.X(c.URLHost), hx.X(c.Path), hx.X(c.Host), hx.B(c.Failed), hx.X(c.Header.Get("X-Hop")), hx.X(strings.Join(via, ",")))
+		out = append(out, hx.X(c.URLHost), hx.X(c.Path), hx.X(c.Host), hx.B(c.Failed), hx.X(c.Header.Get("X-Hop")), hx.X(strings.Join(via, ",")), hx.X(c.Header.Get("If-None-Match")))
 	}
 	return out
 }
